@@ -394,6 +394,96 @@ pub fn assign_random_shapes(m: &mut Model, rng: &mut Rng, used_prob: f64) {
     }
 }
 
+/// Field and variant names in the styles users write them (call after the symbols have their final
+/// names): fields named after their symbol (`expr: Expr`, `num_lit: $NumLit`), names whose
+/// alphabetical order is unrelated or opposite to the declaration order.  Default names (`f0 f1 ..`,
+/// `V0 V1 ..`) are already sorted, which would hide any accidental sorting by name.
+pub fn vary_member_names(m: &mut Model, rng: &mut Rng) {
+    const RESERVED: &[&str] = &[
+        "as", "break", "const", "continue", "crate", "else", "enum", "extern", "false", "fn", "for", "if", "impl", "in", "let", "loop", "match", "mod", "move", "mut", "pub",
+        "ref", "return", "self", "static", "struct", "super", "trait", "true", "type", "unsafe", "use", "where", "while", "async", "await", "dyn", "abstract", "become",
+        "box", "do", "final", "macro", "override", "priv", "typeof", "unsized", "virtual", "yield", "try", "gen", "union", "start", "terminal", "_",
+    ];
+    let mode = rng.below(10);
+    if mode < 4 {
+        return;
+    }
+    let sym_names: Vec<String> = m.nts.iter().map(|n| n.name.clone()).collect();
+    let term_names: Vec<String> = m.terms.iter().map(|t| t.name.clone()).collect();
+    let snake = |s: &str| -> String {
+        let mut out = String::new();
+        let cs: Vec<char> = s.chars().collect();
+        for (i, c) in cs.iter().enumerate() {
+            if c.is_ascii_uppercase() {
+                if i > 0 && (cs[i - 1].is_ascii_lowercase() || cs[i - 1].is_ascii_digit()) {
+                    out.push('_');
+                }
+                out.push(c.to_ascii_lowercase());
+            } else {
+                out.push(*c);
+            }
+        }
+        out
+    };
+    let mut letters: Vec<&str> = vec!["z", "a", "m", "y", "b", "q", "k", "c", "x", "d"];
+    rng.shuffle(&mut letters);
+    for nt in &mut m.nts {
+        let n_prods = nt.prods.len();
+        for (j, p) in nt.prods.iter_mut().enumerate() {
+            match mode {
+                4..=6 => {
+                    // natural style
+                    let mut seen: Vec<String> = vec![];
+                    for (i, f) in p.fields.iter_mut().enumerate() {
+                        let base = match f.sym {
+                            Sym::N(k) => snake(&sym_names[k]),
+                            Sym::T(k) => snake(&term_names[k]),
+                        };
+                        let ok = base.chars().find(|c| c.is_alphabetic()).map(|c| c.is_lowercase()).unwrap_or(true)
+                            && !base.is_empty()
+                            && !base.starts_with(|c: char| c.is_ascii_digit())
+                            && !RESERVED.contains(&base.as_str());
+                        let mut name = if ok { base } else { format!("f{i}") };
+                        if seen.contains(&name) {
+                            name = format!("{name}_{i}");
+                        }
+                        if seen.contains(&name) {
+                            name = format!("f{i}");
+                        }
+                        seen.push(name.clone());
+                        f.name = name;
+                    }
+                    if mode == 6 && !p.fields.is_empty() {
+                        // variants named after their first symbol
+                        let first = match p.fields[0].sym {
+                            Sym::N(k) => sym_names[k].clone(),
+                            Sym::T(k) => term_names[k].clone(),
+                        };
+                        if first.starts_with(|c: char| c.is_ascii_uppercase()) {
+                            p.name = format!("{first}Case{j}");
+                        }
+                    }
+                }
+                7..=8 => {
+                    // alphabetical order unrelated to declaration order
+                    for (i, f) in p.fields.iter_mut().enumerate() {
+                        f.name = format!("{}{i}", letters[i % letters.len()]);
+                    }
+                    p.name = format!("{}{j}", letters[(j + 3) % letters.len()].to_uppercase());
+                }
+                _ => {
+                    // strictly descending
+                    let n = p.fields.len();
+                    for (i, f) in p.fields.iter_mut().enumerate() {
+                        f.name = format!("f{:03}", n - i);
+                    }
+                    p.name = format!("V{:03}", n_prods - j);
+                }
+            }
+        }
+    }
+}
+
 /// Give nonterminals and terminals names whose alphabetical order is unrelated to their
 /// declaration order (kiki sorts symbols, items and states by name).
 pub fn shuffle_names(m: &mut Model, rng: &mut Rng) {
